@@ -15,6 +15,9 @@ use serde_json::Value;
 use std::cell::RefCell;
 use std::collections::HashSet;
 
+/// tags that do not belong at the top level of a response (they are signed inside SREP / DELE)
+const EXTRA_TAGS: [u32; 8] = [rc::MIDP, rc::RADI, rc::ROOT, rc::PUBK, rc::MINT, rc::MAXT, rc::VER, rc::DELE];
+
 const LT_SEED: [u8; 32] = [0x21; 32];
 const ONLINE_SEED: [u8; 32] = [0x37; 32];
 const EVIL_SEED: [u8; 32] = [0x66; 32];
@@ -76,6 +79,8 @@ pub enum Forgery {
     CrossRequest(u8),
     /// genuine response recorded from an earlier client process
     ReplayPrevious(u8),
+    /// an extra, unsigned top-level field (index into EXTRA_TAGS) with a generated value is added to a genuine response
+    ExtraTopLevelTag(u8, Hex),
     Truncate(u16),
     Extend(Hex),
     ByteMuts(Vec<(u16, u8)>),
@@ -327,6 +332,24 @@ fn forge(plan: &Plan, i: usize, requests: &[Vec<u8>]) -> Vec<u8> {
                 None => honest_parts(&good, pr, &filler_request(pr, 77), plan.batch, plan.index, plan.midp).assemble(),
             }
         }
+        Forgery::ExtraTopLevelTag(t, v) => {
+            let tag = EXTRA_TAGS[*t as usize % EXTRA_TAGS.len()];
+            let mut val = v.0.clone();
+            // plausible widths: 8 bytes for times, 4 for RADI/VER, 32/64 otherwise
+            let want = match tag {
+                x if x == rc::MIDP || x == rc::MINT || x == rc::MAXT => 8,
+                x if x == rc::RADI || x == rc::VER => 4,
+                x if x == rc::PUBK => 32,
+                _ => 64,
+            };
+            val.resize(want, 0x01);
+            let mut m = parts.message();
+            m.set(tag, val);
+            match pr {
+                Proto::Classic => m.encode(),
+                Proto::Ietf => m.encode_framed(),
+            }
+        }
         Forgery::Truncate(n) => {
             let mut b = parts.assemble();
             let keep = idx(*n, b.len());
@@ -386,6 +409,7 @@ fn forgery_kind(f: &Forgery) -> String {
         Forgery::CrossProtocolShape(k) => format!("cross-protocol-shape{}", k % 3),
         Forgery::CrossRequest(_) => "cross-request".into(),
         Forgery::ReplayPrevious(_) => "replay-previous-run".into(),
+        Forgery::ExtraTopLevelTag(t, _) => format!("extra-top-level-{}", rc::tag_name(EXTRA_TAGS[*t as usize % EXTRA_TAGS.len()])),
         Forgery::Truncate(_) => "truncate".into(),
         Forgery::Extend(_) => "extend".into(),
         Forgery::ByteMuts(_) => "byte-mutations".into(),
@@ -431,9 +455,18 @@ fn check_forgery(ctx: &mut Ctx, plan: &Plan) -> Res {
     // verdicts on what was actually delivered for what was actually asked
     let mut first_bad: Option<(usize, String)> = None;
     let mut near_valid = false;
+    let mut signed_times: Vec<(i64, u32)> = vec![];
+    let mut signed_radii: Vec<u32> = vec![];
     for (i, d) in delivered.iter().enumerate() {
         match verify_lenient(pr, &run.requests[i].0, d, &pk) {
-            Lenient::Authentic(_) => {
+            Lenient::Authentic(info) => {
+                if first_bad.is_none() {
+                    signed_radii.push(info.radi);
+                    signed_times.push(match pr {
+                        Proto::Classic => ((info.midp / 1_000_000) as i64, ((info.midp % 1_000_000) * 1_000) as u32),
+                        Proto::Ietf => (info.midp as i64, 0),
+                    });
+                }
                 if i == 0 && matches!(plan.forgery, Forgery::Honest) {
                     RECORDED.with(|r| {
                         let mut r = r.borrow_mut();
@@ -463,6 +496,30 @@ fn check_forgery(ctx: &mut Ctx, plan: &Plan) -> Res {
         Some(_) => "unauthentic",
     };
     ctx.class(&format!("c01:{}:{}:{}:{}", pr.name(), if plan.key_b64 { "b64" } else { "hex" }, kind, verdict));
+    // whatever time the client reports as verified must be the *signed* midpoint of the response it accepted
+    // (midpoints beyond chrono's range make the client fail, which is allowed here)
+    let printed = run.times();
+    for (j, t) in printed.iter().enumerate() {
+        if let Some(want) = signed_times.get(j) {
+            if t != want {
+                return ctx.fail(
+                    "verified-time-is-not-the-signed-midpoint",
+                    format!("{} client (forgery {}) printed {:?} for response #{} whose authenticated (signed) midpoint is {:?}: unauthenticated data reported as verified; stdout {:?}", pr.name(), kind, t, j, want, run.stdout),
+                );
+            }
+        }
+    }
+    if plan.mode % 3 == 2 {
+        // JSON output also reports the radius
+        let radii: Vec<u32> = run.stdout.lines().filter_map(|l| l.split("\"radius\": ").nth(1)).filter_map(|r| r.split(',').next().and_then(|x| x.trim().parse().ok())).collect();
+        for (j, r) in radii.iter().enumerate() {
+            if let Some(want) = signed_radii.get(j) {
+                if r != want {
+                    return ctx.fail("verified-radius-is-not-the-signed-radius", format!("{} client (forgery {}) reported radius {} for response #{} whose signed RADI is {}; stdout {:?}", pr.name(), kind, r, j, want, run.stdout));
+                }
+            }
+        }
+    }
     if let Some((k, why)) = first_bad {
         let times = run.time_lines().len();
         let exit = run.exit.unwrap_or(-1);
@@ -515,6 +572,7 @@ fn forgery_strategy() -> impl Strategy<Value = Forgery> {
         2 => any::<u8>().prop_map(Forgery::CrossProtocolShape),
         2 => any::<u8>().prop_map(Forgery::CrossRequest),
         2 => any::<u8>().prop_map(Forgery::ReplayPrevious),
+        3 => (0u8..8, bytes(0usize..=8)).prop_map(|(t, v)| Forgery::ExtraTopLevelTag(t, v)),
         2 => any::<u16>().prop_map(Forgery::Truncate),
         1 => bytes(1usize..=16).prop_map(Forgery::Extend),
         3 => proptest::collection::vec((any::<u16>(), any::<u8>()), 1..=8).prop_map(Forgery::ByteMuts),
@@ -575,6 +633,12 @@ fn fixed_table() -> Vec<Plan> {
                 Forgery::Truncate(30_000),
                 Forgery::Truncate(0),
                 Forgery::Extend(Hex(vec![0; 4])),
+                Forgery::ExtraTopLevelTag(0, Hex(vec![0x39, 0x30, 0, 0, 0, 0, 0, 0])),
+                Forgery::ExtraTopLevelTag(1, Hex(vec![1, 0, 0, 0])),
+                Forgery::ExtraTopLevelTag(2, Hex(vec![9; 8])),
+                Forgery::ExtraTopLevelTag(3, Hex(vec![7; 8])),
+                Forgery::ExtraTopLevelTag(4, Hex(vec![0xff; 8])),
+                Forgery::ExtraTopLevelTag(5, Hex(vec![0; 8])),
             ] {
                 out.push(base(f, 6, 4, 1, 0));
             }
